@@ -146,6 +146,8 @@ pub struct Gen<'a> {
     /// vkeys defined so far (an action may only reference already defined ones)
     vkeys_defined: usize,
     dyn_ids: Vec<u32>,
+    /// this configuration deliberately contains out-of-range numbers
+    out_of_range: bool,
 }
 
 impl<'a> Gen<'a> {
@@ -158,6 +160,7 @@ impl<'a> Gen<'a> {
             aliases: vec![],
             vkeys_defined: 0,
             dyn_ids: vec![1, 2],
+            out_of_range: false,
         }
     }
 
@@ -173,7 +176,11 @@ impl<'a> Gen<'a> {
     }
 
     pub fn timeout(&mut self) -> u64 {
-        let t = if self.p.boundary_numbers && self.rng.chance(1, 8) {
+        let t = if self.out_of_range && self.rng.chance(1, 8) {
+            // out-of-range on purpose: rejected by the parser today; if a range check is ever
+            // relaxed the run-time code is exercised with the value
+            0
+        } else if self.p.boundary_numbers && self.rng.chance(1, 8) {
             *self.rng.pick(&[1u64, 1, 2, 65535, 65534, 1000])
         } else {
             *self.rng.pick(&self.p.timeouts) as u64
@@ -220,6 +227,22 @@ impl<'a> Gen<'a> {
             v.push(if self.rng.coin() { self.physkey() } else { self.outkey() });
         }
         format!("({})", v.join(" "))
+    }
+
+    /// key-history / key-timing / input-history recency (1-8; occasionally out of range on purpose)
+    fn recency(&mut self) -> usize {
+        if self.out_of_range && self.rng.chance(1, 4) {
+            *self.rng.pick(&[0usize, 9, 255])
+        } else {
+            1 + self.rng.usize(8)
+        }
+    }
+    fn distance(&mut self, pool: &[u32]) -> u32 {
+        if self.out_of_range && self.rng.chance(1, 4) {
+            *self.rng.pick(&[0u32, 30001, 65535])
+        } else {
+            *self.rng.pick(pool)
+        }
     }
 
     fn chord_atom(&mut self) -> String {
@@ -332,7 +355,7 @@ impl<'a> Gen<'a> {
             K::Key => self.outkey(),
             K::OutChord => self.chord_atom(),
             K::Trans => "_".into(),
-            K::NoOp => self.rng.pick(&["XX", "•", "()"]).to_string(),
+            K::NoOp => self.rng.pick(&["XX", "•", "✗"]).to_string(),
             K::UseDefsrc => "use-defsrc".into(),
             K::LayerSwitch => format!("(layer-switch {})", self.layer()),
             K::LayerWhileHeld => {
@@ -391,7 +414,7 @@ impl<'a> Gen<'a> {
             }
             K::Macro => self.macro_action(c.depth),
             K::Unicode => {
-                let ch = *self.rng.pick(&["é", "ß", "λ", "😀", "x", "\"(\"", "\")\""]);
+                let ch = *self.rng.pick(&["é", "ß", "λ", "😀", "x", "r#\"(\"#"]);
                 format!("(unicode {ch})")
             }
             K::OneShot => {
@@ -478,13 +501,13 @@ impl<'a> Gen<'a> {
             K::MWheel => {
                 let d = *self.rng.pick(&["up", "down", "left", "right"]);
                 let i = self.timeout();
-                let dist = *self.rng.pick(&[1u32, 120, 30000]);
+                let dist = self.distance(&[1u32, 120, 30000]);
                 format!("(mwheel-{d} {i} {dist})")
             }
             K::MoveMouse => {
                 let d = *self.rng.pick(&["up", "down", "left", "right"]);
                 let i = self.timeout();
-                let dist = *self.rng.pick(&[1u32, 5, 30000]);
+                let dist = self.distance(&[1u32, 5, 30000]);
                 format!("(movemouse-{d} {i} {dist})")
             }
             K::MoveMouseAccel => {
@@ -515,7 +538,7 @@ impl<'a> Gen<'a> {
                 }
             }
             K::ArbitraryCode => {
-                let c = if self.p.boundary_numbers { *self.rng.pick(&[0u32, 1, 30, 700, 767]) } else { *self.rng.pick(&[30u32, 700]) };
+                let c = if self.out_of_range { 768 } else if self.p.boundary_numbers { *self.rng.pick(&[0u32, 1, 30, 700, 767]) } else { *self.rng.pick(&[30u32, 700]) };
                 format!("(arbitrary-code {c})")
             }
             K::PushMsg => "(push-msg hello (a b) \"c d\")".into(),
@@ -649,10 +672,10 @@ impl<'a> Gen<'a> {
         let r = self.rng.usize(if depth >= 3 { 6 } else { 10 });
         match r {
             0 | 1 => self.outkey(),
-            2 => format!("(key-history {} {})", self.outkey(), 1 + self.rng.usize(8)),
+            2 => format!("(key-history {} {})", self.outkey(), self.recency()),
             3 => {
                 let t = if self.p.boundary_numbers { *self.rng.pick(&[0u32, 1, 255, 256, 2303, 2304, 65535]) } else { *self.rng.pick(&[1u32, 50, 300]) };
-                format!("(key-timing {} {} {t})", 1 + self.rng.usize(8), self.rng.pick(&["lt", "gt", "less-than", "greater-than"]))
+                format!("(key-timing {} {} {t})", self.recency(), self.rng.pick(&["lt", "gt", "less-than", "greater-than"]))
             }
             4 => {
                 if self.rng.coin() || self.vkeys_defined == 0 {
@@ -664,7 +687,7 @@ impl<'a> Gen<'a> {
             5 => match self.rng.usize(3) {
                 0 => format!("(layer {})", self.layer()),
                 1 => format!("(base-layer {})", self.layer()),
-                _ => format!("(input-history real {} {})", self.physkey(), 1 + self.rng.usize(8)),
+                _ => format!("(input-history real {} {})", self.physkey(), self.recency()),
             },
             _ => {
                 let op = *self.rng.pick(&["or", "and", "not"]);
@@ -699,6 +722,7 @@ impl<'a> Gen<'a> {
 
     pub fn config(mut self) -> GenCfg {
         let p = self.p;
+        self.out_of_range = p.boundary_numbers && self.rng.chance(1, 12);
         // keys
         let nk = p.min_keys + self.rng.usize(p.max_keys - p.min_keys + 1);
         let mut pool: Vec<&str> = PHYS.to_vec();
@@ -780,11 +804,20 @@ impl<'a> Gen<'a> {
         text.push_str(&format!("(defsrc {})\n", self.out.keys.join(" ")));
 
         // chord groups v1 (declared before use; actions generated later so they can use anything)
-        let n_groups = if p.has(K::ChordV1) && self.rng.chance(1, 3) { 1 + self.rng.usize(2) } else { 0 };
+        let mut n_groups = if p.has(K::ChordV1) && self.rng.chance(1, 3) { 1 + self.rng.usize(2) } else { 0 };
+        let mut id_budget = self.out.keys.len();
+        if id_budget < 2 {
+            n_groups = 0;
+        }
         let mut group_specs: Vec<(String, u64, Vec<Vec<String>>)> = vec![];
         for g in 0..n_groups {
             let name = format!("cg{g}");
-            let ids: Vec<String> = (0..(2 + self.rng.usize(3))).map(|i| format!("k{i}")).collect();
+            if id_budget < 2 {
+                break;
+            }
+            let nids = (2 + self.rng.usize(3)).min(id_budget);
+            id_budget -= nids;
+            let ids: Vec<String> = (0..nids).map(|i| format!("k{i}")).collect();
             let t = self.timeout();
             let mut chords: Vec<Vec<String>> = vec![];
             let mut seen = BTreeSet::new();
@@ -796,6 +829,8 @@ impl<'a> Gen<'a> {
                     chords.push(sel.iter().map(|&i| ids[i].clone()).collect());
                 }
             }
+            // only identifiers that occur in some chord exist in the group
+            let ids: Vec<String> = ids.into_iter().filter(|i| chords.iter().any(|c| c.contains(i))).collect();
             self.chord_groups.push((name.clone(), ids));
             group_specs.push((name, t, chords));
         }
@@ -840,10 +875,17 @@ impl<'a> Gen<'a> {
             }
         }
 
+        // every key id of a chord group must be bound somewhere: do it on the first layer
+        let mut forced_cells: Vec<String> = vec![];
+        for (g, ids) in self.chord_groups.clone() {
+            for id in ids {
+                forced_cells.push(format!("(chord {g} {id})"));
+            }
+        }
         // layers
         for li in 0..nl {
             let lname = self.out.layers[li].clone();
-            if p.deflayermap && self.rng.chance(1, 4) {
+            if p.deflayermap && self.rng.chance(1, 4) && !(li == 0 && !forced_cells.is_empty()) {
                 let mut s = format!("(deflayermap ({lname})");
                 let keys = self.out.keys.clone();
                 for k in keys.iter() {
@@ -856,8 +898,11 @@ impl<'a> Gen<'a> {
                 text.push_str(&s);
             } else {
                 let mut s = format!("(deflayer {lname}");
-                for _ in 0..self.out.keys.len() {
-                    let a = self.action(0);
+                for ki in 0..self.out.keys.len() {
+                    let a = match forced_cells.get(ki) {
+                        Some(f) if li == 0 => f.clone(),
+                        _ => self.action(0),
+                    };
                     s.push_str(&format!("\n  {a}"));
                 }
                 s.push_str(")\n");
@@ -920,7 +965,11 @@ impl<'a> Gen<'a> {
             for _ in 0..(1 + self.rng.usize(3)) {
                 let m = *self.rng.pick(MODS);
                 let k = OUTKEYS[self.rng.usize(12)];
-                let out = if self.rng.coin() { format!("{} {}", self.rng.pick(MODS), self.outkey()) } else { self.outkey() };
+                let mut ok = self.outkey();
+                while MODS.contains(&ok.as_str()) {
+                    ok = self.outkey();
+                }
+                let out = if self.rng.coin() { format!("{} {}", self.rng.pick(MODS), ok) } else { ok };
                 if self.rng.chance(1, 4) {
                     s.push_str(&format!("\n  ({k}) ({out})"));
                 } else {
